@@ -262,6 +262,36 @@ def relocate(rng, q, K, position):
                               optimum_to_nearest_face_over_width=rel_dist))
 
 
+SCALES_X = [1e-4, 1.0, 1e4, 1e6]
+SCALES_F = [1e-6, 1.0, 1e6]
+N_SCALE_QUICK = 36
+
+
+def rescale(q, sx, sf):
+    """the *scale* axis of the tail identity: the same quadratic in other units, f'(x') = sf * f(x' / sx) on the box sx * [lo, hi]
+    (curvature A' = sf A / sx^2: entries from 1e-14 to 1e+14, maximum sf b, level depth sf t0).  P[f(X) > y] is a ratio of volumes,
+    so every tail probability is what it was; a flat objective on a wide, un-normalised box (sx = 1e4, sf = 1: a hyper-parameter such as
+    "number of steps") and a steep one on a tiny box are the same problem.  The box is rebuilt from the scaled optimum and the scaled
+    margins, so the level ellipsoid {f' >= sf (b - t0)} lies inside it exactly as before (up to the rounding of the end points)."""
+    d = q["d"]
+    lam = [sf * l / (sx * sx) for l in q["lam"]]
+    ainv_diag = np.sum(np.array(q["Q"]) ** 2 / np.array(lam), axis=1)
+    t0 = sf * q["t0"]
+    half = np.sqrt(2 * t0 * ainv_diag)
+    xs, lo, hi = [], [], []
+    for i in range(d):
+        x = sx * q["xstar"][i]
+        l, h = x - sx * (q["xstar"][i] - q["lo"][i]), x + sx * (q["hi"][i] - q["xstar"][i])
+        if not (l < x < h and min(x - l, h - x) >= half[i] * (1 - 1e-9)):
+            raise AssertionError("harness: the rescaled box does not contain the level ellipsoid")
+        xs.append(x); lo.append(l); hi.append(h)
+    A = (np.array(q["Q"]) * np.array(lam)) @ np.array(q["Q"]).T
+    off = A - np.diag(np.diag(A))
+    return dict(q, lam=lam, xstar=xs, lo=lo, hi=hi, b=sf * q["b"], t0=t0, centred_1d=False,
+                scale=dict(x_factor=sx, f_factor=sf, largest_curvature_entry=float(np.max(np.abs(A))),
+                           largest_off_diagonal_curvature_entry=float(np.max(np.abs(off))) if d > 1 else 0.0))
+
+
 def exact_tail(q, y):
     """P[f(X) > y], X uniform on the box, for a level whose ellipsoid lies inside the box: closed-form volume ratio"""
     import mpmath as mp
@@ -284,6 +314,8 @@ def describe(q):
                bounds=[[l, h] for l, h in zip(q["lo"], q["hi"])], t0=q["t0"], np_seed=q["np_seed"])
     if "location" in q:
         out["location"] = q["location"]
+    if "scale" in q:
+        out["scale"] = q["scale"]
     return out
 
 
@@ -304,11 +336,53 @@ def b_finding_key(lo, hi, b_returned, b_true):
     return B_FINDING if polish_blind(lo, hi) and 0 <= rel_err <= 1e-2 else None
 
 
+SCALE_FINDING = "C20-b-off-where-the-scale-of-the-objective-defeats-the-optimiser-polish"
+LBFGSB_PGTOL, LBFGSB_FTOL, LBFGSB_FD_STEP = 1e-5, 2.220446049250313e-09, 1e-8     # scipy's defaults, used by differential_evolution's polish
+SCALE_FINDING_CAP = 5e-2     # of the level depth t0 (measured on the unchanged tree, 1100 calls, d = 1..6: up to 9.1e-3)
+
+
+def polish_defeated_by_scale(lam, d, b_true, b_returned):
+    """which of the ABSOLUTE constants of the L-BFGS-B polish inside scipy's differential_evolution (projected-gradient tolerance 1e-5 in
+    the max norm, relative-decrease tolerance 2.2e-9 of max(1, |f|), forward-difference step 1e-8) cannot resolve the objective at the
+    returned level, with delta = max f - b_returned and the generated curvatures lam (explicit predicates on the failing input):
+      pgtol:    somewhere on the level surface {f = b_returned} the gradient's max norm is <= 1e-5 (its smallest value there is at most
+                sqrt(2 delta lam_min / d)): the polish declares convergence at the unpolished population best (flat objective);
+      ftol:     delta <= 2.2e-9 max(1, |max f|): no step can decrease -f by more than the stopping threshold (objective of tiny range);
+      fd_bias:  the forward-difference gradient is biased by lam_max * 1e-8 / 2 > 1e-5: the gradient test cannot be met, the line search
+                ends ABNORMAL and differential_evolution discards the unsuccessful polish (steep objective on a tiny box);
+      fd_noise: the forward difference of f over the step, at most sqrt(2 delta lam_max) * 1e-8, is below 8 ulps of |f|: the numerical
+                gradient is rounding noise (large |f| on a wide box)."""
+    delta = b_true - b_returned
+    if not delta >= 0:
+        return []
+    out = []
+    if math.sqrt(2 * delta * min(lam) / d) <= LBFGSB_PGTOL:
+        out.append("pgtol")
+    if delta <= LBFGSB_FTOL * max(1.0, abs(b_true)):
+        out.append("ftol")
+    if 0.5 * max(lam) * LBFGSB_FD_STEP > LBFGSB_PGTOL:
+        out.append("fd_bias")
+    if math.sqrt(2 * delta * max(lam)) * LBFGSB_FD_STEP <= 8 * ULP * abs(b_true):
+        out.append("fd_noise")
+    return out
+
+
+def scale_finding_key(q, b_returned):
+    """explicit predicate on the failing input: b below the maximum of f (never above) by at most 5 % of the level depth t0, and one of
+    the polish's absolute constants cannot resolve the objective there.  It keys the *b* clause only; a failing tail level is keyed by
+    it only if, in addition, the tail identity holds to 1e-7 with the returned b in place of the maximum (i.e. `a` is right and the
+    whole deviation is the optimiser's error in b): see run_params."""
+    delta = q["b"] - b_returned
+    if 0 <= delta <= SCALE_FINDING_CAP * q["t0"] and polish_defeated_by_scale(q["lam"], q["d"], q["b"], b_returned):
+        return SCALE_FINDING
+    return None
+
+
 REPLAY_SNIPPET = ("A = Q @ diag(lam) @ Q.T; f = lambda x: b - 0.5*npx.sum((x-xstar)*npx.dot(x-xstar, A), axis=-1)  "
                   "[autograd.numpy as npx]; np.random.seed(np_seed); get_approximation_parameters(f, bounds)")
 
 
-def run_params(rep, rng, drv, tier, analytic, lrng):
+def run_params(rep, rng, drv, tier, analytic, lrng, srng):
     from opda import parametric
     from scipy.stats import qmc
     import mpmath as mp
@@ -327,6 +401,13 @@ def run_params(rep, rng, drv, tier, analytic, lrng):
         d = 1 + (k // 8) % 4 if tier == "quick" else 1 + (k // 8) % 6
         kind = "rotated" if (d >= 2 and lrng.random() < 0.5) else "diag"
         qs.append(relocate(lrng, gen_quadratic(lrng, d, kind), LOCATIONS[k % 4], ("centred", "near_face")[(k // 4) % 2]))
+    # scale stratum (own generator): every pair (x factor, f factor) of SCALES_X x SCALES_F, dimensions cycling against the pairs,
+    # mostly rotated (a curvature matrix is only told from its diagonal when it has off-diagonal entries)
+    pairs = [(sx, sf) for sx in SCALES_X for sf in SCALES_F]
+    for k in range(N_SCALE_QUICK if tier == "quick" else 180):
+        d = 1 + (k // len(pairs) + k) % (4 if tier == "quick" else 6)
+        kind = "rotated" if (d >= 2 and srng.random() < 0.7) else "diag"
+        qs.append(rescale(gen_quadratic(srng, d, kind), *pairs[k % len(pairs)]))
 
     outs = []
     for q in qs:
@@ -339,6 +420,12 @@ def run_params(rep, rng, drv, tier, analytic, lrng):
             rep.count("params_literal_1d_box_equals_level_set")
         if "location" in q:
             rep.count("params_location:box_translated_by_%g_widths:optimum_%s" % (q["location"]["K"], q["location"]["position"]))
+        if "scale" in q:
+            rep.count("params_scale:x_times_%g:f_times_%g" % (q["scale"]["x_factor"], q["scale"]["f_factor"]))
+            rep.count("params_scale:%s:largest_curvature_entry=1e%+03d" % (q["kind"], int(math.floor(math.log10(q["scale"]["largest_curvature_entry"])))))
+            if q["kind"] == "rotated":
+                rep.count("params_scale:rotated:largest_off_diagonal_curvature_entry_%s_1e-8"
+                          % ("<=" if q["scale"]["largest_off_diagonal_curvature_entry"] <= 1e-8 else ">"))
         np.random.seed(q["np_seed"])     # differential_evolution(seed=None) draws from numpy's global generator
         try:
             with warnings.catch_warnings():
@@ -372,17 +459,23 @@ def run_params(rep, rng, drv, tier, analytic, lrng):
         b_err = abs(br - q["b"]) / max(1.0, abs(q["b"]))
         blind = polish_blind(q["lo"], q["hi"])
         worst("b_vs_true_maximum_rel" + ("_where_the_polish_step_is_absorbed" if blind else ""), b_err)
+        skey = scale_finding_key(q, br) if br <= q["b"] + 64 * ULP * max(1.0, abs(q["b"])) else None
         if b_err > TOL_B or br > q["b"] + 64 * ULP * max(1.0, abs(q["b"])):
-            key = b_finding_key(q["lo"], q["hi"], br, q["b"])
-            if key is not None:
+            key = b_finding_key(q["lo"], q["hi"], br, q["b"]) or skey
+            if key == B_FINDING:
                 rep.count("params_tail_not_judged:" + key)
+            if key is not None:
                 KEYED[key] = KEYED.get(key, 0) + 1
             if key is not None and KEYED[key] > 3:
                 rep.count("repeats_of_" + key)
             else:
                 rep.violate(what="b is not the maximum of f (differs by more than 1e-7 relative, or exceeds it)", input=inp,
-                            expected=q["b"], observed=br, call=REPLAY_SNIPPET, **({"finding_key": key} if key else {}))
-            continue
+                            expected=q["b"], observed=br, call=REPLAY_SNIPPET,
+                            **({"finding_key": key, "below_maximum_by_fraction_of_t0": (q["b"] - br) / q["t0"],
+                                "polish_cannot_resolve": polish_defeated_by_scale(q["lam"], d, q["b"], br)} if key else {}))
+            if key != SCALE_FINDING:
+                continue
+            # keyed by the scale finding: a, c and the tail identity are still judged (below), the tail against the returned b as well
         eigs = [-l for l in q["lam"]]
         bl = " ".join(f"{C.fhex(l)} {C.fhex(h)}" for l, h in zip(q["lo"], q["hi"]))
         # levels with the ellipsoid inside the box: y = b - s t0, s in (0, 1]; plus y = b
@@ -391,10 +484,11 @@ def run_params(rep, rng, drv, tier, analytic, lrng):
         ys = [max(y, ar) for y in ys] + [q["b"]]       # the top level is the true maximum (>= the returned b): both tails vanish
         reqs.append(("exp.params", f"{C.fhex(br)} {C.flist(eigs)} {d} {bl}"))
         reqs.append(("exp.tail", f"{C.fhex(br)} {C.flist(eigs)} {d} {bl} {C.flist(ys)}"))
-        meta.append((q, f, a, ar, br, int(c), ys, inp))
+        meta.append((q, f, a, ar, br, int(c), ys, inp, skey))
     replies = drv.run(reqs)
 
-    for k, (q, f, a, ar, br, c, ys, inp) in enumerate(meta):
+    scale_counted = set()
+    for k, (q, f, a, ar, br, c, ys, inp, skey) in enumerate(meta):
         rp, rt = replies[2 * k], replies[2 * k + 1]
         d = q["d"]
         scale = max(1.0, abs(ar), abs(br))
@@ -431,6 +525,28 @@ def run_params(rep, rng, drv, tier, analytic, lrng):
                                                                 exact=pe, impl=float(tc)))
             worst("tail_vs_exact_abs", abs(tc - pe))
             if not abs(tc - pe) <= TOL_TAIL:
+                # the scale finding explains a failing level only if the whole deviation is the optimiser's error in b: with the
+                # returned b in place of the maximum the identity must hold at the property's tolerance (then `a` is right)
+                pe_given_b = exact_tail(dict(q, b=br), y) if skey is not None else None
+                if pe_given_b is not None and abs(tc - pe_given_b) <= TOL_TAIL:
+                    if id(q) not in scale_counted:
+                        scale_counted.add(id(q))
+                        rep.count("params_calls_keyed_by_the_scale_finding")
+                        for why in polish_defeated_by_scale(q["lam"], d, q["b"], br):
+                            rep.count("params_scale_finding:polish_cannot_resolve_the_objective_at_the_returned_level:" + why)
+                    worst("tail_vs_exact_with_the_returned_b_abs_(scale_finding)", abs(tc - pe_given_b))
+                    KEYED[skey + ":tail"] = KEYED.get(skey + ":tail", 0) + 1
+                    if KEYED[skey + ":tail"] > 3:
+                        rep.count("repeats_of_" + skey + ":tail")
+                    else:
+                        rep.violate(what="P[f(X) > y] (exact volume ratio, level ellipsoid inside the box) differs from 1 - QuadraticDistribution"
+                                    "(a, b, c, convex=False).cdf(y) by more than 1e-7 because the returned b is below the maximum of f "
+                                    "(with the returned b in place of the maximum the identity holds to 1e-7)",
+                                    input=dict(inp, y=y, y_hex=C.fhex(y), returned=[ar, br, c]), expected=pe, observed=float(tc),
+                                    expected_with_the_returned_b=pe_given_b, below_maximum_by_fraction_of_t0=(q["b"] - br) / q["t0"],
+                                    polish_cannot_resolve=polish_defeated_by_scale(q["lam"], d, q["b"], br), finding_key=skey,
+                                    call=REPLAY_SNIPPET + "; 1 - QuadraticDistribution(a, b, c, convex=False).cdf(y)")
+                    continue
                 tail_bad = True
                 rep.violate(what="P[f(X) > y] (exact volume ratio, level ellipsoid inside the box) differs from "
                             "1 - QuadraticDistribution(a, b, c, convex=False).cdf(y) by more than 1e-7",
@@ -739,7 +855,8 @@ def run(seed, tier, replay=None):
     rep = C.Report("C20", seed, tier)
     drv = C.Driver()
     run_ellipse(rep, C.rng_for("C20.ellipse", seed), drv, tier, analytic)
-    run_params(rep, C.rng_for("C20.params", seed), drv, tier, analytic, C.rng_for("C20.params.location", seed))
+    run_params(rep, C.rng_for("C20.params", seed), drv, tier, analytic, C.rng_for("C20.params.location", seed),
+               C.rng_for("C20.params.scale", seed))
     run_sim(rep, C.rng_for("C20.sim", seed), drv, tier, simulation)
     if rep.hist.get("a_returned_with_complex_dtype"):
         rep.notes.append("get_approximation_parameters returned `a` with a complex dtype (zero imaginary part) in %d calls: "
@@ -749,7 +866,9 @@ def run(seed, tier, replay=None):
         rule="ellipse_volume within 64 ulps of the exact formula (mpmath), permutation invariant, homogeneous (bit-exact for 2^k); "
              "c == d; b within 1e-7 of the true maximum; a within 1e-9 (relative) of the Lean model fed with the returned b; "
              "exact P[f(X)>y] (closed-form volume ratio) within 1e-7 of 1-cdf(y) at levels whose ellipsoid lies in the box, also with "
-             "optimum and box translated by 0, 1e3, 1e5, 1e7 box widths per coordinate x optimum centred / at 0.2-5 % of the width from a face; "
+             "optimum and box translated by 0, 1e3, 1e5, 1e7 box widths per coordinate x optimum centred / at 0.2-5 % of the width from a face, "
+             "and with x scaled by 1e-4, 1, 1e4, 1e6 and f by 1e-6, 1, 1e6 (curvature entries 1e-14..1e+14; where the optimiser's polish cannot "
+             "resolve the objective the b deficit is a keyed finding and the tail is also judged against the returned b); "
              "Simulation.run: shapes, bounds, yss=func(xss), first-trial slices, yss_cummax == model exactly, "
              "y_min<=yss<=y_max to 1e-9 (unless the optimiser cannot locate the optima), determinism",
         extra=dict(driver_lines=drv.lines, extra=dict(worst_observed_deviation=dict(WORST))))
